@@ -93,6 +93,34 @@ class _Rewriter(ast.NodeTransformer):
         self.counts["fstr"] += 1
         return ast.copy_location(self._fstr_call(node), node)
 
+    # -- 5. set displays `{a, b}` -> _pyvc_mkset(a, b)  (same set on concrete elements; comp.py)
+    def visit_Set(self, node):
+        self.generic_visit(node)
+        if any(isinstance(e, ast.Starred) for e in node.elts):
+            return node
+        self.counts["setlit"] = self.counts.get("setlit", 0) + 1
+        return ast.copy_location(ast.Call(ast.Name("_pyvc_mkset", ast.Load()), list(node.elts), []), node)
+
+    # -- 6. list comprehensions that have an element-type declaration in the spec (comp.py);
+    #       every other comprehension is left untouched
+    def visit_ListComp(self, node):
+        from .comp import COMP_SPECS
+        q = self._cur_func()
+        ck = ("comp", q)
+        k = self.loop_counter.get(ck, 0) + 1
+        self.loop_counter[ck] = k
+        self.generic_visit(node)
+        if (self.relpath, q, k) not in COMP_SPECS:
+            return node
+        g = node.generators[0]
+        if len(node.generators) != 1 or g.ifs or g.is_async or not isinstance(g.target, ast.Name):
+            raise SpecError(f"comprehension contract on an unsupported comprehension: {self.relpath}:{q}#{k}")
+        self.counts["comps"] = self.counts.get("comps", 0) + 1
+        lam = ast.Lambda(ast.arguments(posonlyargs=[], args=[ast.arg(g.target.id)], kwonlyargs=[], kw_defaults=[],
+                                       defaults=[]), node.elt)
+        return ast.copy_location(ast.Call(ast.Name("_pyvc_listcomp", ast.Load()),
+                                          [ast.Constant((self.relpath, q, k)), lam, g.iter], []), node)
+
     def _fstr_call(self, node):
         args = []
         for v in node.values:
@@ -298,6 +326,9 @@ class _Loader(importlib.machinery.SourceFileLoader):
         d["_pyvc_is"] = rt.is_
         d["_pyvc_is_not"] = rt.is_not_
         d["_pyvc_fstr"] = rt.fstr_
+        from . import comp
+        d["_pyvc_mkset"] = comp.mkset
+        d["_pyvc_listcomp"] = comp.listcomp
         d["_pyvc_active"] = _ctx.active
         d["_pyvc_loop_begin"] = loops.loop_begin
         d["_pyvc_for_begin"] = loops.for_begin
